@@ -1,5 +1,6 @@
 import Dmn.Lemmas.LalrProgress
 import Dmn.Lemmas.LexerProgress
+import Dmn.Lemmas.EvalNoPanic
 
 /-!
 # C05 (parser side) — FEEL parsing is total
@@ -62,16 +63,12 @@ end Dmn.Lalr
 
 namespace Dmn.Lexer
 
--- FULL STATEMENT (not provable of the current code, finding F5c):
---   theorem lexer_no_panic (l : Lx) (s : PanicSite) : nextToken l ≠ .panic s
--- It fails where `till_in` is set and the name at the cursor has `in` as its first part
--- (`lexer_no_panic_counterexample`).
-
-/-- `lexer_no_panic_partial`: outside the hazard `tillInHazard` (the lexer is in `till_in` mode
-and the first part of the name at the cursor is `in`) no call of `next_token` panics: every
-`consumed_positions[i]` of `consume_name` is in bounds. -/
-theorem lexer_no_panic_partial (l : Lx) (hz : tillInHazard l = false) (s : PanicSite) :
-    nextToken l ≠ .panic s := by
+/-- `lexer_no_panic`: no call of `next_token` panics, for any input, cursor, scope and flag
+setting: every `consumed_positions[i]` of `consume_name` is in bounds (the vector is as long as
+`parts`; the `till_in` tweak fires only for an index `> 0`, lexer.rs:649 — repaired by 6e5a011,
+finding F5c; the prefix loop stays within `1..parts.len()`), and nothing else indexes or
+subtracts. -/
+theorem lexer_no_panic (l : Lx) (s : PanicSite) : nextToken l ≠ .panic s := by
   intro h
   unfold nextToken at h
   split at h
@@ -81,32 +78,40 @@ theorem lexer_no_panic_partial (l : Lx) (hz : tillInHazard l = false) (s : Panic
     · cases h
     · cases h
     · rename_i s' hh
-      have := (readNextToken_panic l s' hh).2
-      rw [hz] at this
-      cases this
+      exact readNextToken_no_panic l s' hh
     · cases h
 
--- non-vacuity: `till_in` mode, input `x y in [1]` — no hazard, the token is the name `x y`
+-- non-vacuity: `till_in` mode, input `x y in [1]`: the token is the name `x y`
 def exTillIn : Lx :=
   { input := [120, 32, 121, 32, 105, 110, 32, 91, 49, 93], pos := 0, start := none,
     unaryTests := false, between := false, typeName := false, tillIn := true, keys := [] }
-example : tillInHazard exTillIn = false ∧
-    nextToken exTillIn = .ok (⟨.name, .name [120, 32, 121]⟩, { exTillIn with pos := 3, tillIn := false }) := by
-  decide
+example : nextToken exTillIn =
+    .ok (⟨.name, .name [120, 32, 121]⟩, { exTillIn with pos := 3, tillIn := false }) := by decide
 
-/-- The lexer state right after `for` in `for in+x in [1] return 1`. -/
+/-- The lexer state right after `for` in `for in+x in [1] return 1` (the witness of F5c). -/
 def exF5 : Lx :=
   { input := [105, 110, 43, 120, 32, 105, 110, 32, 91, 49, 93], pos := 0, start := none,
     unaryTests := false, between := false, typeName := false, tillIn := true, keys := [] }
 
-/-- `lexer_no_panic_counterexample`: with `till_in` set, the input `in+x in [1]` makes
-`consume_name` evaluate `consumed_positions[index - 1]` with `index = 0` (lexer.rs:645). -/
-theorem lexer_no_panic_counterexample : nextToken exF5 = .panic .tillInIndexMinus1 := by decide
+-- non-vacuity at the old witness: `in` as FIRST part is not the keyword before which the variable
+-- name ends; the whole text `in+x in` is returned as one (unbound) name and `till_in` stays set
+example : nextToken exF5 =
+    .ok (⟨.name, .name [105, 110, 43, 120, 32, 105, 110]⟩, { exF5 with pos := 8 }) := by decide
 
 /-- The model's iteration budgets are never exhausted: `fuelOut` is not an outcome of
 `next_token`, for any input (the name state machine stops within `4·(len − pos) + 4`
 iterations, the string loop within `len − pos + 1`). -/
 theorem lexer_no_fuel_out (l : Lx) : nextToken l ≠ .fuelOut := nextToken_total l
+
+/-- The white space / comment skipping loop of `read_input` (any number of comments between two
+tokens, d0f16a2) stops within the model's budget: at the cursor `skipBlanks` returns, one more
+round of `consume_whitespace; consume_comment` does not move. -/
+theorem lexer_skip_settles (inp : List Nat) (pos : Nat) (h : pos ≤ inp.length) :
+    consumeComment inp (consumeWhitespace inp (skipBlanks inp pos)) = skipBlanks inp pos :=
+  skipBlanks_settled inp pos h
+
+-- non-vacuity: `/*a*/ /*b*/ 1` — both comments are skipped, the cursor stands on `1`
+example : skipBlanks [47, 42, 97, 42, 47, 32, 47, 42, 98, 42, 47, 32, 49] 0 = 12 := by decide
 
 /-- `lexer_progress`: a successful call never moves the cursor backwards, and every token other
 than `YyEof` and `YyUndef` moves it strictly forward (after the start token has been
@@ -133,3 +138,32 @@ def exProg : Lx :=
 example : nextToken exProg = .ok (⟨.name, .name [97]⟩, { exProg with pos := 1 }) := by decide
 
 end Dmn.Lexer
+
+/-! ## Part (a): the evaluator never panics
+
+`Dmn.Eval.eval` is the model of the evaluator closures (`feel-evaluator/src/builders.rs`,
+`iterations.rs`); every slice index, `unwrap` and checked integer operation of the modelled
+code that could fail is an explicit `panic` outcome of the model.  The theorem says that no
+expression, scope or fuel makes the model report one, provided the built-in functions it
+delegates to do not (their own no-panic theorems are C08's `bif_no_panic`).  Process-level
+failures (stack overflow on unbounded recursion, F9) are outside this statement: in the
+model unbounded recursion is the outcome `diverge`. -/
+
+namespace Dmn.Eval
+
+theorem eval_no_panic (num : NumOps) (bp : String → List Value → Outcome Value)
+    (bn : String → List (String × Value × Nat) → Outcome Value)
+    (hbp : ∀ n a p, bp n a ≠ .panic p) (hbn : ∀ n a p, bn n a ≠ .panic p)
+    (fuel : Nat) (a : Ast) (s : Scope) (p : String) :
+    eval num bp bn fuel a s ≠ .panic p := by
+  have h := p_eval noPanicPred num bp bn Variant.code
+    (by intro α s p h; cases h)
+    (by intro st p; exact run_no_panic _ p) hbp hbn fuel a
+  exact h s p
+
+/-- The iteration engine of `for` / `some` / `every` never panics (after the repair of the
+`index + step` overflow, commit b754d3c) — for any states whatsoever. -/
+theorem iterator_no_panic (states : List Iter.State) (p : String) : Iter.run states ≠ .panic p :=
+  run_no_panic states p
+
+end Dmn.Eval
